@@ -658,6 +658,19 @@ func (e *SpecEnv) index(base, idx TV) TV {
 			return TV{VScalar{val}, types.Typ[types.String]}
 		}
 		// any other map: the value stored under a key whose entry is known (has_key / an earlier lookup)
+		if b.Obj >= 0 && e.inOld && e.heap0 != nil {
+			// old(m[k]): the entry as it was on entry (no materialisation into the old heap)
+			if mg, ok := e.heap0[b.Obj].(*MapGen); ok {
+				k := e.term(idx)
+				elem := b.Typ.Underlying().(*types.Map).Elem()
+				for _, en := range mg.Entries {
+					if en.Key.S == k.S {
+						return TV{zeroIfAbsent(e.x.force(e.st, en.Val), en.Present), elem}
+					}
+				}
+				return e.fail("old(): the map entry was not known on entry")
+			}
+		}
 		if b.Obj >= 0 {
 			if mg, ok := e.st.heap[b.Obj].(*MapGen); ok {
 				k := e.term(idx)
@@ -669,7 +682,7 @@ func (e *SpecEnv) index(base, idx TV) TV {
 						cp.Entries = append([]MapEntry(nil), mg.Entries...)
 						cp.Entries[i].Val = v
 						e.st.heap[b.Obj] = &cp
-						return TV{v, elem}
+						return TV{zeroIfAbsent(v, en.Present), elem}
 					}
 				}
 				if mg.Sym {
@@ -677,7 +690,7 @@ func (e *SpecEnv) index(base, idx TV) TV {
 					cp := *mg
 					cp.Entries = append(append([]MapEntry(nil), mg.Entries...), ent)
 					e.st.heap[b.Obj] = &cp
-					return TV{ent.Val, elem}
+					return TV{zeroIfAbsent(ent.Val, ent.Present), elem}
 				}
 			}
 		}
@@ -966,6 +979,24 @@ func (x *Exec) specEnvFor(st *State, fn *ssa.Function, params []Value, results [
 func (x *Exec) specEnvForSig(st *State, cs *calleeSig, fn *ssa.Function, params []Value, results []Value, heap0 map[int]Value) *SpecEnv {
 	env := &SpecEnv{x: x, st: st, heap0: heap0, vars: map[string]TV{}}
 	env.pkg = cs.pkg
+	// "ghost <name> int|string|bool": an arbitrary but fixed constant of the function under verification.
+	// Whatever is proved about it is proved for every value: universal statements without quantifiers.
+	if x.contract != nil && fn != nil && fn == x.fn {
+		for _, d := range x.contract.Directives["ghost"] {
+			f := strings.Fields(d)
+			if len(f) != 2 {
+				continue
+			}
+			switch f[1] {
+			case "int":
+				env.vars[f[0]] = TV{VScalar{x.sym.Named("ghost."+f[0], SInt)}, types.Typ[types.Int]}
+			case "string":
+				env.vars[f[0]] = TV{VScalar{x.sym.Named("ghost."+f[0], SStr)}, types.Typ[types.String]}
+			case "bool":
+				env.vars[f[0]] = TV{VScalar{x.sym.Named("ghost."+f[0], SBool)}, types.Typ[types.Bool]}
+			}
+		}
+	}
 	for i, p := range cs.params {
 		if i < len(params) {
 			env.vars[p.Name()] = TV{params[i], p.Type()}
@@ -1027,4 +1058,31 @@ func dottedName(e ast.Expr) string {
 		return base + "." + n.Sel.Name
 	}
 	return ""
+}
+
+// zeroIfAbsent is the value a map lookup yields when presence is symbolic: the stored value if the key is
+// present, the zero value (nil, length 0) otherwise. Only reference-like values are adjusted.
+func zeroIfAbsent(v Value, present Term) Value {
+	if present.IsTrue() {
+		return v
+	}
+	switch vv := v.(type) {
+	case VSlice:
+		vv.Nil = Or(Not(present), vv.Nil)
+		vv.Len = Ite(present, vv.Len, IntLit(0))
+		return vv
+	case VPtr:
+		vv.Nil = Or(Not(present), vv.Nil)
+		return vv
+	case VIface:
+		vv.Nil = Or(Not(present), vv.Nil)
+		return vv
+	case VMap:
+		vv.Nil = Or(Not(present), vv.Nil)
+		return vv
+	case VChan:
+		vv.Nil = Or(Not(present), vv.Nil)
+		return vv
+	}
+	return v
 }
